@@ -246,7 +246,9 @@ func (l *Ledger) TxnSupplement(txn types.Transaction) (ts consensus.V1Transactio
 // Supplement builds the v1 block supplement for a child block b of the tip.
 func (l *Ledger) Supplement(b types.Block) consensus.V1BlockSupplement {
 	bs := consensus.V1BlockSupplement{Transactions: make([]consensus.V1TransactionSupplement, len(b.Transactions))}
-	if l.State.Index.Height >= l.State.Network.HardforkV2.RequireHeight && len(l.Path) > 0 {
+	// consensus requires an empty supplement for every block at or above the require height (child height!):
+	// v1 contracts whose window ends there are never expired
+	if l.State.Index.Height+1 >= l.State.Network.HardforkV2.RequireHeight && len(l.Path) > 0 {
 		return bs
 	}
 	for i, txn := range b.Transactions {
